@@ -1,10 +1,13 @@
 package node
 
 import (
-	"github.com/NethermindEth/juno/blockchain"
+	"fmt"
 	"strconv"
 
+	"github.com/NethermindEth/juno/blockchain"
 	"github.com/NethermindEth/juno/core"
+	"github.com/NethermindEth/juno/core/felt"
+	"github.com/NethermindEth/juno/core/pending"
 	"github.com/cockroachdb/pebble/v2"
 
 	"jsim/chaingen"
@@ -82,6 +85,131 @@ func preconfirmedQuery(k *checker, g *chaingen.Gen) {
 	lim := evLimits[t.Draw("ev.limit", len(evLimits))]
 	k.CheckEventsPre(f, pre, []uint64{ch, 1000}, []uint{lim, 0})
 	c.Probe("preconfirmed_query")
+	if t.Draw("pre.replaced.between.pages", 3) == 0 {
+		pagingAcrossReplacedPreConfirmed(k, g, f, pre)
+	}
+}
+
+// pagingAcrossReplacedPreConfirmed: a client pages through a range that reaches into the
+// pre-confirmed blocks (one filter per page, as the RPC layer does); between two pages the
+// sequencer replaces ONE pre-confirmed candidate block by another round of the same height. What the
+// remaining pages return for that block is not judged (it changed under the reader); every event of
+// the blocks ABOVE the token's block - which did not change - must still be delivered, in order.
+func pagingAcrossReplacedPreConfirmed(k *checker, g *chaingen.Gen, f evFilter, pre []*chaingen.Block) {
+	c, t := k.n.c, k.n.c.T
+	f.to = blockchain.PreConfirmedFilterSentinel
+	mk := func(blocks []*chaingen.Block) preChain {
+		pc := preChain{}
+		for _, b := range blocks {
+			blk := CloneBlock(b.B)
+			blk.Hash = nil
+			pc.items = append(pc.items, &pending.PreConfirmed{Block: blk, StateUpdate: CloneStateUpdate(b.SU)})
+		}
+		return pc
+	}
+	cur := mk(pre)
+	addrs := make([]felt.Address, len(f.addrs))
+	for i := range f.addrs {
+		addrs[i] = felt.Address(f.addrs[i])
+	}
+	page := func(tok *blockchain.ContinuationToken, chunk uint64) ([]flatEvent, blockchain.ContinuationToken) {
+		ef, err := k.n.BC.EventFilter(addrs, f.keys, func() (blockchain.PreConfirmedReader, error) { return cur, nil })
+		if err != nil {
+			k.fail("events_preconfirmed", "EventFilter", "EventFilter(): %v", err)
+		}
+		defer ef.Close()
+		c.Must(ef.SetRangeEndBlockByNumber(blockchain.EventFilterFrom, f.from), "set from")
+		c.Must(ef.SetRangeEndBlockByNumber(blockchain.EventFilterTo, f.to), "set to")
+		evs, next, err := ef.Events(tok, chunk)
+		c.Evals++
+		if err != nil {
+			k.fail("events_preconfirmed", "Events_after_replacement", "Events(%s) with token %v: %v", f, tok, err)
+		}
+		var out []flatEvent
+		for _, e := range evs {
+			bh := "nil"
+			if e.BlockHash != nil {
+				bh = e.BlockHash.String()
+			}
+			out = append(out, flatEvent{e.BlockNumber, bh, e.TransactionHash.String(), e.TransactionIndex, e.EventIndex, e.From.String(), feltList(e.Keys), feltList(e.Data)})
+		}
+		return out, next
+	}
+	chunk := uint64(1 + t.Draw("prx.chunk", 3))
+	var tok *blockchain.ContinuationToken
+	for pages := 0; pages < 4000; pages++ {
+		_, next := page(tok, chunk)
+		if next.IsEmpty() {
+			return // the sequence ended before it stopped inside a pre-confirmed block
+		}
+		nx := next
+		tok = &nx
+		var at, done uint64
+		if _, err := fmt.Sscanf(tok.String(), "%d-%d", &at, &done); err != nil {
+			c.Broken("continuation token %q: %v", tok.String(), err)
+		}
+		first := pre[0].B.Number
+		if at < first || done == 0 {
+			continue // not (yet) stopped in the middle of a pre-confirmed block
+		}
+		if at-first >= uint64(len(pre))-1 {
+			return // stopped in the newest pre-confirmed block: nothing above it to judge
+		}
+		// replace the candidate at height `at` by another round: a block of the same height generated on
+		// another salt (often without anything for the filter); the blocks above it stay as they are
+		idx := int(at - first)
+		parent := k.m.Head()
+		if idx > 0 {
+			parent = pre[idx-1]
+		}
+		o := chaingen.Opts{Version: parent.Version, Salt: 910000 + uint64(idx), MaxTxs: 2, MaxEvents: 1, MaxDiff: 1, NoClasses: true, Empty: t.Draw("prx.empty", 2) == 0}
+		repl := g.Next(t, parent, o)
+		np := append(append(append([]*chaingen.Block(nil), pre[:idx]...), repl), pre[idx+1:]...)
+		cur = mk(np)
+		c.Logf("pre-confirmed block %d replaced by another round between two pages (token %s)", at, tok.String())
+		c.Fault("preconfirmed_block_replaced_between_pages")
+		var got []flatEvent
+		for p2 := 0; ; p2++ {
+			if p2 > 4000 {
+				k.fail("events_preconfirmed", "paging_never_ends", "paging after a replaced pre-confirmed block did not terminate")
+			}
+			evs, next := page(tok, chunk)
+			got = append(got, evs...)
+			if next.IsEmpty() {
+				break
+			}
+			nn := next
+			tok = &nn
+		}
+		var want, gotAbove []flatEvent
+		for _, b := range np[idx+1:] {
+			for ti, r := range b.B.Receipts {
+				for ei, e := range r.Events {
+					if f.matches(e) {
+						want = append(want, flatEvent{b.B.Number, "nil", r.TransactionHash.String(), uint(ti), uint(ei), e.From.String(), feltList(e.Keys), feltList(e.Data)})
+					}
+				}
+			}
+		}
+		for _, e := range got {
+			if e.Block > at {
+				gotAbove = append(gotAbove, e)
+			}
+		}
+		if cw, cg := canon(want), canon(gotAbove); cw != cg {
+			kind := "mismatch"
+			if len(want) > len(gotAbove) {
+				kind = "omitted"
+			} else if len(gotAbove) > len(want) {
+				kind = "extra"
+			}
+			k.fail("events_preconfirmed", kind+"_above_a_block_replaced_between_pages", "query %s chunk=%d resumed with token %d-%d after pre-confirmed block %d was replaced: blocks above it hold %d matching events, got %d: %s", f, chunk, at, done, at, len(want), len(gotAbove), firstDiff(cw, cg))
+		}
+		if len(want) > 0 {
+			c.Probe("events_above_replaced_preconfirmed_block_delivered")
+		}
+		return
+	}
 }
 
 // raceQuery arms ONE event query of a concurrent reader to run inside the next commit the node
